@@ -195,6 +195,40 @@ CHECKS = {
                   "over map histories with a per-pixel invariant",
         engine="hist+grid",
     ),
+    "C02": dict(
+        category="exploration",
+        text="Exhaustive cartesian grid: 5 shipped models x full parameter "
+             "box (E over 4 decades, geometry, Poisson ratios, layer "
+             "parameters) x 3-5 contact points x 3-4 baselines x 8 "
+             "indentation arrays (descending, ascending, unsorted, exact "
+             "contact point and its 1-ulp neighbours, depths up to R, "
+             "length 1, empty) against a scalar literature reference; "
+             "bit-exact baseline out of contact; truncated series vs the "
+             "exact parametric Sneddon solution on 400 depths up to R; "
+             "documented constants.",
+        design_ref="DESIGN.md §2 C02",
+        note="Continuum claim decided on the stated grid; excluded points "
+             "where the documented formula is undefined are listed.",
+        technique="exhaustive bounded enumeration of inputs against an "
+                  "independent reference model",
+        engine="grid",
+    ),
+    "C13": dict(
+        category="exploration",
+        text="Exhaustive grid over every registered model (5 shipped, the "
+             "installed plug-in in a watchdog child, 3 harness-defined "
+             "models: order-sensitive, with ancillaries, with an expression "
+             "parameter) x parameter cells x 6 abscissa arrays of either "
+             "orientation x translations, baseline shifts, modulus scales, "
+             "continuity ladder, weighting distances; plus complete fits of "
+             "the order-sensitive model on both segments.",
+        design_ref="DESIGN.md §2 C13",
+        note="Bit-exact where the arithmetic is exact (dyadic), ulp-scaled "
+             "tolerances elsewhere.",
+        technique="exhaustive bounded enumeration of models x inputs with "
+                  "metamorphic relations as oracle",
+        engine="grid",
+    ),
 }
 
 NA_REASON = "check not built yet in this session (under construction; see DESIGN.md §9 work order)"
@@ -233,6 +267,8 @@ def build():
              "kind_free_text": "complete enumeration of a finite input domain on the implementation"},
             {"name": "hist", "path": "mc/hist.py", "serves_properties": ["C03", "C06", "C09", "C10", "C12", "C16", "C20"],
              "kind_free_text": "explicit-state breadth-first search over operation histories on real objects (replay from scratch, canonical state hash, per-state and per-transition oracles, merge-soundness and determinism self-checks)"},
+            {"name": "grid", "path": "mc/grid.py", "serves_properties": ["C02", "C13"],
+             "kind_free_text": "exhaustive cartesian enumeration of inputs/configurations, chunked over a spawn pool, reference-model or relational oracle per cell"},
             {"name": "store", "path": "mc/props/c03_store.py", "serves_properties": ["C03", "C18", "C19"],
              "kind_free_text": "closure (fixpoint) search of small dictionary-like stores against a reference model"},
         ],
